@@ -6,6 +6,7 @@ import (
 	"encoding/json"
 	"errors"
 	"fmt"
+	"io"
 	"net"
 	"os"
 	"path/filepath"
@@ -26,7 +27,6 @@ import (
 	"github.com/database64128/shadowsocks-go/stats"
 	"github.com/database64128/shadowsocks-go/tlscerts"
 	"github.com/database64128/shadowsocks-go/zerocopy"
-	"go.uber.org/zap"
 	"go.uber.org/zap/zapcore"
 	"go.uber.org/zap/zaptest/observer"
 	"pgregory.net/rapid"
@@ -45,18 +45,55 @@ import (
 // and (b) hold an onward dial while other connections pass through the same listener.
 
 var fakeErrnos = map[string]syscall.Errno{
-	"ECONNRESET":   syscall.ECONNRESET,
+	"EACCES":       syscall.EACCES,
+	"ENETDOWN":     syscall.ENETDOWN,
+	"ENETUNREACH":  syscall.ENETUNREACH,
+	"ENETRESET":    syscall.ENETRESET,
 	"ECONNABORTED": syscall.ECONNABORTED,
+	"ECONNRESET":   syscall.ECONNRESET,
 	"ETIMEDOUT":    syscall.ETIMEDOUT,
 	"ECONNREFUSED": syscall.ECONNREFUSED,
-	"ENETUNREACH":  syscall.ENETUNREACH,
+	"EHOSTDOWN":    syscall.EHOSTDOWN,
 	"EHOSTUNREACH": syscall.EHOSTUNREACH,
-	"EACCES":       syscall.EACCES,
+	// outside conn's table
+	"EINVAL":        syscall.EINVAL,
+	"EPERM":         syscall.EPERM,
+	"EADDRNOTAVAIL": syscall.EADDRNOTAVAIL,
+	"ENOBUFS":       syscall.ENOBUFS,
+}
+
+// fakeDialError builds the error the owned outbound client returns for a planned failure, in
+// the shapes real dialers produce: the errno itself (x/sys and raw syscall users), wrapped by
+// os.NewSyscallError (internal/poll users), inside *net.OpError (net.Dialer), and that again
+// wrapped with context by a caller (fmt.Errorf %w). Non-errno failures: a context deadline, a
+// resolver error as net.Dialer reports it, and io.EOF (an upstream that hangs up mid-handshake).
+func fakeDialError(p connPlan, addr conn.Addr) error {
+	switch p.Errno {
+	case errDeadline:
+		return context.DeadlineExceeded
+	case errDNS:
+		return &net.OpError{Op: "dial", Net: "tcp", Err: &net.DNSError{Err: "no such host", Name: addr.Host(), IsNotFound: true}}
+	case errEOF:
+		return io.EOF
+	}
+	errno, ok := fakeErrnos[p.Errno]
+	if !ok {
+		return fmt.Errorf("harness: unknown planned failure %q", p.Errno)
+	}
+	switch p.ErrWrap {
+	case "bare-errno":
+		return errno
+	case "os.SyscallError":
+		return os.NewSyscallError("connect", errno)
+	case "fmt.Errorf-%w":
+		return fmt.Errorf("dial upstream %s: %w", addr, &net.OpError{Op: "dial", Net: "tcp", Err: os.NewSyscallError("connect", errno)})
+	}
+	return &net.OpError{Op: "dial", Net: "tcp", Err: os.NewSyscallError("connect", errno)}
 }
 
 // fakeDial is the script and the record of one planned onward dial (keyed by destination port).
 type fakeDial struct {
-	errno   syscall.Errno
+	fail    *connPlan     // non-nil: the dial fails as planned there
 	hold    chan struct{} // non-nil: DialStream blocks until it is closed
 	entered chan struct{} // closed when the relay calls DialStream
 
@@ -105,8 +142,8 @@ func (f *fakeClient) DialStream(ctx context.Context, addr conn.Addr, payload []b
 	d.mu.Lock()
 	d.atDial = bytes.Clone(payload)
 	d.mu.Unlock()
-	if d.errno != 0 {
-		return nil, &net.OpError{Op: "dial", Net: "tcp", Err: os.NewSyscallError("connect", d.errno)}
+	if d.fail != nil {
+		return nil, fakeDialError(*d.fail, addr)
 	}
 	nd := net.Dialer{Timeout: liveBound}
 	nc, err := nd.DialContext(ctx, "tcp4", addr.String())
@@ -139,14 +176,30 @@ func startFakeRelay(c casePlan, fc *fakeClient, taddrs []string, upskPath string
 	if err := dec.Decode(&sc); err != nil {
 		return nil, fmt.Errorf("decode server config: %w", err)
 	}
-	core, logs := observer.New(zapcore.InfoLevel)
-	logger := zap.New(core)
-	rc := router.Config{DefaultTCPClientName: "fake"}
+	logger, logs := tcpsvc.NewLogger(c.DebugLog)
+	// the router of the relay check, as far as it applies: the two reject routes, default = the owned client
+	var rc router.Config
+	rraw, _ := json.Marshal(obj{"defaultTCPClientName": "fake", "routes": []obj{
+		{"name": "rej-domain", "toDomains": []string{rejectDomain}, "client": "reject"},
+		{"name": "rej-ip", "toPrefixes": []string{rejectIP + "/32"}, "disableNameResolutionForIPRules": true, "client": "reject"},
+	}})
+	rdec := json.NewDecoder(bytes.NewReader(rraw))
+	rdec.DisallowUnknownFields()
+	if err := rdec.Decode(&rc); err != nil {
+		return nil, fmt.Errorf("decode router config: %w", err)
+	}
 	r, err := rc.Router(logger, nil, nil, map[string]netio.StreamClient{"fake": fc}, map[string]zerocopy.UDPClient{}, map[string]int{sc.Name: 0})
 	if err != nil {
 		return nil, fmt.Errorf("router: %w", err)
 	}
-	store, err := (&tlscerts.Config{}).NewStore()
+	var tc tlscerts.Config
+	if c.Server == "http" && c.TLS {
+		traw, _ := json.Marshal(certsCfg())
+		if err := json.Unmarshal(traw, &tc); err != nil {
+			return nil, fmt.Errorf("decode certs config: %w", err)
+		}
+	}
+	store, err := tc.NewStore()
 	if err != nil {
 		return nil, fmt.Errorf("tls store: %w", err)
 	}
@@ -231,6 +284,8 @@ func drawFake(rt *rapid.T) fakePlan {
 	c.BufSize = rapid.SampledFrom([]int{0, 0, 0, 64, 1000, 4096}).Draw(rt, "buf-size")
 	c.Auth = rapid.Bool().Draw(rt, "auth")
 	c.AES256 = rapid.Bool().Draw(rt, "aes256")
+	c.DebugLog = rapid.Bool().Draw(rt, "debug-log")
+	c.TLS = rapid.Bool().Draw(rt, "tls") // only means something for the http server
 	b := c.bufSize()
 	if f.Overlap {
 		// the wait path: a server protocol without native payload, a client that reports native payload
@@ -267,17 +322,31 @@ func drawFake(rt *rapid.T) fakePlan {
 		}
 		return f
 	}
-	c.Server = rapid.SampledFrom([]string{"socks5", "socks5", "socks5", "http", "http", "http", "none", "ss2022"}).Draw(rt, "server")
+	c.Server = rapid.SampledFrom([]string{"socks5", "socks5", "socks5", "http", "http", "http", "none", "none", "ss2022", "ss2022"}).Draw(rt, "server")
 	c.FakeNative = rapid.IntRange(0, 4).Draw(rt, "fake-native") == 0
 	c.DisableWait = rapid.IntRange(0, 3).Draw(rt, "disable-wait") == 0
-	n := rapid.IntRange(3, 8).Draw(rt, "conns")
+	// Failure classes are walked cyclically from a drawn start, one per failing connection, so that
+	// a handful of cases covers every (result code x wrapping) class, the non-errno failures and the
+	// router's rejection - independent draws would need several times as many connections.
+	n := rapid.IntRange(20, 45).Draw(rt, "conns")
+	k := rapid.IntRange(0, len(failureClasses)-1).Draw(rt, "first-failure-class")
 	for i := 0; i < n; i++ {
 		p := drawConn(rt, b, false)
 		p.ViaDirect = false
-		if rapid.IntRange(0, 9).Draw(rt, "errno-target") < 8 {
-			p.Target = tkFakeErrno
-			p.Errno = rapid.SampledFrom([]string{"ECONNRESET", "ECONNRESET", "ECONNRESET", "ECONNABORTED", "ECONNABORTED", "ECONNABORTED", "ETIMEDOUT", "ETIMEDOUT", "ETIMEDOUT",
-				"ECONNREFUSED", "ENETUNREACH", "EHOSTUNREACH", "EACCES"}).Draw(rt, "errno")
+		if rapid.IntRange(0, 9).Draw(rt, "failing") < 9 {
+			fc := failureClasses[k%len(failureClasses)]
+			k++
+			switch fc.errno {
+			case "router-reject-domain":
+				p.Target = tkRejectDomain
+			case "router-reject-ip":
+				p.Target = tkRejectIP
+			case "other-errno":
+				p.Target, p.ErrWrap = tkFakeErrno, fc.wrap
+				p.Errno = otherErrnos[int(p.UpSeed%uint64(len(otherErrnos)))]
+			default:
+				p.Target, p.Errno, p.ErrWrap = tkFakeErrno, fc.errno, fc.wrap
+			}
 		} else if p.Target != tkOKIP && p.Target != tkOKDomain {
 			p.Target = tkOKIP
 		}
@@ -285,6 +354,21 @@ func drawFake(rt *rapid.T) fakePlan {
 	}
 	return f
 }
+
+type failureClass struct{ errno, wrap string }
+
+// failureClasses: every errno of conn's table and one outside it, in every wrapping; the
+// non-errno failures; rejection by the router (by domain rule, by prefix rule).
+var failureClasses = func() []failureClass {
+	var out []failureClass
+	for _, w := range errWraps {
+		for _, e := range tableErrnos {
+			out = append(out, failureClass{e, w})
+		}
+	}
+	return append(out, failureClass{errDeadline, ""}, failureClass{errDNS, ""}, failureClass{errEOF, ""},
+		failureClass{"router-reject-domain", ""}, failureClass{"router-reject-ip", ""})
+}()
 
 // ---- execution ---------------------------------------------------------------------------------------
 
@@ -306,7 +390,7 @@ func runFakeCase(f fakePlan, workDir string) (res caseResult) {
 	for i, p := range c.Conns {
 		d := &fakeDial{entered: make(chan struct{})}
 		if p.Target == tkFakeErrno {
-			d.errno = fakeErrnos[p.Errno]
+			d.fail = &c.Conns[i]
 		}
 		if f.Overlap && i == 0 {
 			d.hold = make(chan struct{})
@@ -393,6 +477,13 @@ func runFakeCase(f fakePlan, workDir string) (res caseResult) {
 		d.mu.Lock()
 		calls, addr, atEntry, atDial := d.calls, d.addr, d.atEntry, d.atDial
 		d.mu.Unlock()
+		if p.Target == tkRejectDomain || p.Target == tkRejectIP {
+			if calls != 0 {
+				res.violation = fmt.Sprintf("SIG=C13/rejected-target-dialled connection %d: the router rejects %s, yet the outbound client was called %d times (for %s)", i, targets[i].addr, calls, addr)
+				return
+			}
+			continue
+		}
 		if calls != 1 {
 			res.violation = fmt.Sprintf("SIG=C13/dialled-not-exactly-once connection %d: the outbound client was called %d times", i, calls)
 			return
@@ -430,10 +521,10 @@ func runFakeCase(f fakePlan, workDir string) (res caseResult) {
 		if r.session {
 			total++
 		}
-		if c.Auth && hasUsers(c.Server) {
-			w := users[userName(i)]
+		if u, ok := userOf(c, i); ok {
+			w := users[u]
 			w.add(r)
-			users[userName(i)] = w
+			users[u] = w
 		} else {
 			anon.add(r)
 		}
@@ -448,12 +539,31 @@ var recFake = ev.New("C13", "owned-outbound-client",
 	"rapid: a real service.TCPRelay (ServerConfig from generated JSON -> Initialize -> TCPRelay -> Start; server in {socks5, http, none, ss2022}, wait buffer {64,1000,1440,4096}, T {40,100}ms) "+
 		"whose routed client is a harness-owned netio.StreamClient. Two families: (a) overlap - connection 0 sends its first bytes inside the wait window (length 1, <B, =B twice as likely, B+1, 2B/4096/65536; "+
 		"all connections of the case use the same length, different content) and its onward dial is held; 1-4 further connections pass through the same listener with their own first bytes and finish - one after the other or started at drawn offsets (0-150ms) - then, after a drawn linger (0-120ms), the held dial is released; "+
-		"(b) errno - 3-8 parallel connections, 80% of whose onward dials fail with a drawn errno (ECONNRESET, ECONNABORTED, ETIMEDOUT weighted, ECONNREFUSED, ENETUNREACH, EHOSTUNREACH, EACCES) wrapped like a real dial error, "+
+		"(b) failures - 20-45 parallel connections, 90% of which fail: the classes {EACCES, ENETDOWN, ENETUNREACH, ENETRESET, ECONNABORTED, ECONNRESET, ETIMEDOUT, ECONNREFUSED, EHOSTDOWN, EHOSTUNREACH, an errno outside conn's table} x {bare errno, *os.SyscallError, *net.OpError{*os.SyscallError}, fmt.Errorf %w around that} + context.DeadlineExceeded, a *net.DNSError inside *net.OpError, io.EOF + router rejection by domain rule / by prefix rule are walked cyclically from a drawn start, one per failing connection; http server over TLS or plain; logger debug or info; "+
 		"native-payload flag and disabled wait drawn. Oracle: the per-connection ledger/EOF/reset oracle of the relay check; the outbound client is asked exactly once for exactly the requested target; the initial payload it receives is a prefix "+
-		"of that connection's own stream at the start of the dial and unchanged when the dial uses it; failed dials are answered with a failure reply (exact REP where the errno has one, any non-zero REP / 502 otherwise) unless the documented wait rule forced success; "+
+		"of that connection's own stream at the start of the dial and unchanged when the dial uses it; failed dials are answered with the protocol's failure reply for that class (SOCKS5 REP from a table written from RFC 1928's names and the meaning of each result code: EACCES/rejection 2, ENETDOWN/ENETUNREACH 3, ENETRESET 3 or 1, EHOSTDOWN/EHOSTUNREACH 4, ECONNREFUSED 5, timeouts 1 or 6, DNS 1 or 4, everything else 1; HTTP 502; a close without a byte for none/ss2022) unless the documented wait rule forced success (then: success, close without a byte); a rejected target is never dialled; "+
 		"collector snapshot = ledger. Evaluation = one connection. Non-trivial: every connection of an overlap case; errno connections that were answered with a failure reply; distinct key = class key + role").
 	Require("overlapping-payload-waits/earlier-dial-held", "payload-length=wait-buffer-size", "held-dial-payload-nonempty",
-		"failed-dial-reported:ECONNRESET", "failed-dial-reported:ECONNABORTED", "failed-dial-reported:ETIMEDOUT")
+		"failed-dial-reported:ECONNRESET", "failed-dial-reported:ECONNABORTED", "failed-dial-reported:ETIMEDOUT").
+	Require(requiredFailureLabels()...).
+	Require("router-rejection-reported", "failure-silent-close:none", "failure-silent-close:ss2022", "forced-success-reply",
+		"server:http+tls", "logger:debug", "logger:info")
+
+// requiredFailureLabels: a failure reply (SOCKS5 REP / HTTP status) was checked for every result
+// code in every wrapping, and for the non-errno failures.
+func requiredFailureLabels() []string {
+	var out []string
+	for _, fc := range failureClasses {
+		switch {
+		case strings.HasPrefix(fc.errno, "router-"):
+		case fc.wrap == "":
+			out = append(out, "failed-dial-reported:"+fc.errno)
+		default:
+			out = append(out, "failed-dial-reported:"+fc.errno+"/"+fc.wrap)
+		}
+	}
+	return out
+}
 
 func TestRelayOwnedClient(t *testing.T) {
 	if v, err := strconv.Atoi(os.Getenv("VERIF_C13_GOMAXPROCS")); err == nil && v > 0 {
@@ -465,6 +575,9 @@ func TestRelayOwnedClient(t *testing.T) {
 		procs = "gomaxprocs:>1"
 	}
 	dir := workDir(t)
+	if err := setupCerts(dir); err != nil {
+		t.Fatalf("SIG=C13/harness-error certificates: %v", err)
+	}
 	journal := filepath.Join(dir, fmt.Sprintf("journal-c13-owned-%d.json", os.Getpid()))
 	rapid.Check(t, func(rt *rapid.T) {
 		f := drawFake(rt)
@@ -492,12 +605,21 @@ func TestRelayOwnedClient(t *testing.T) {
 			ls := []string{procs, "server:" + c.Server}
 			for _, l := range r.labels {
 				if strings.HasPrefix(l, "failed-dial-reported:") || l == "forced-success-reply" || l == "closed-without-reply" || l == "wait-applies" ||
-					l == "session-ended-by-reset-with-bytes-relayed" || l == "half-close-then-opposite-flows" {
+					l == "session-ended-by-reset-with-bytes-relayed" || l == "half-close-then-opposite-flows" ||
+					l == "router-rejection-reported" || strings.HasPrefix(l, "failure-silent-close:") || l == "server:http+tls" || strings.HasPrefix(l, "socks5-rep:") || l == "http-502" {
 					ls = append(ls, l)
 				}
 			}
+			if c.DebugLog {
+				ls = append(ls, "logger:debug")
+			} else {
+				ls = append(ls, "logger:info")
+			}
 			if p.Target == tkFakeErrno {
-				ls = append(ls, "dial-errno:"+p.Errno)
+				ls = append(ls, "dial-failure:"+errClass(p.Errno))
+				if p.ErrWrap != "" {
+					ls = append(ls, "dial-failure-wrapping:"+p.ErrWrap)
+				}
 			}
 			nt := r.nt && p.Target == tkFakeErrno
 			role := "errno-case"
@@ -530,7 +652,7 @@ func TestRelayOwnedClient(t *testing.T) {
 			if retried {
 				ls = append(ls, "case-retried")
 			}
-			recFake.Case(c.classKey(p)+" "+role+" "+p.Errno, nt, ls...)
+			recFake.Case(c.classKey(p)+" "+role, nt, ls...)
 			if nt {
 				recFake.Sample(map[string]any{"overlap": f.Overlap, "role": role, "server": c.Server, "buf": c.bufSize(), "t_ms": c.TMs, "fake_native": c.FakeNative, "conn": p})
 			}
